@@ -32,6 +32,18 @@ def mc_replays(ctx, kinds, depth, workers=12, maxref=3, salts=(1, 2), name="mc",
     return progs
 
 
+def sim_replays(ctx, kinds, depth, num, name="sim", maxref=3, cap=2500):
+    """Longer behaviours of MC_Tables chosen by TLC's simulator (seeded), as harness programs."""
+    md = schema.menu_data(kinds, salts=(1, 2), maxref=maxref)
+    mpath = ctx.path(name + ".menu.json")
+    with open(mpath, "w") as f:
+        json.dump(md, f)
+    cfg = write_cfg(ctx, name, depth, invs=["InvMech", "InvC01", "InvC02", "EmitInv"])
+    reps = vlib.simulate(ctx, cfg, "MC_Tables.tla", num=num, depth=depth + 1, seed=ctx.seed, env={"MENU": mpath, "KINDS": ""}, timeout=1200)
+    reps = [r for r in reps if len(r["path"]) == depth][:cap]
+    return [schema.program_of(md, r["kind"], r["path"]) for r in reps]
+
+
 def mc_replays_parallel(ctx, jobs, name="mc"):
     """jobs: list of (kinds, depth, fillto) run as independent TLC processes."""
     out = []
